@@ -29,6 +29,24 @@ def coeffs(info):
     try:
         return tuple(frac(getattr(tb, "__%s__" % k)) for k in "abcd")
     except AttributeError:
+        # the closure does not carry its written coefficients: read the affine map off three points
+        try:
+            y0, y1, y2 = float(tb(0.0)), float(tb(1.0)), float(tb(2.0))
+        except Exception:
+            raise NotAffine(info.unit)
+        if not abs((y2 - y1) - (y1 - y0)) <= 1e-12 * max(abs(y0), abs(y1), abs(y2), 1e-300):
+            raise NotAffine(info.unit)
+        return (frac(y0), frac(y1) - frac(y0), F(1), F(0))
+
+
+def written_coeffs(info):
+    """the to-base coefficients as WRITTEN on the closure; NotAffine when the closure does not carry them"""
+    tb = info.tobase
+    if not getattr(tb, "__has_conversion__", True):
+        return (F(0), F(1), F(1), F(0))
+    try:
+        return tuple(frac(getattr(tb, "__%s__" % k)) for k in "abcd")
+    except AttributeError:
         raise NotAffine(info.unit)
 
 
